@@ -8,6 +8,8 @@ CONSTANTS
   Reporters = {"sync", "includer"}
   ReportOnCancel = {"sync", "includer"}
   ErrCap = 2
+  Unjoined = {}
   SendIgnoresCancel = TRUE
+INVARIANTS EveryActivityReturned
 PROPERTIES StopsEventually StopsPromptly RunReturns
 CHECK_DEADLOCK FALSE
